@@ -6,7 +6,7 @@ From Coercion.Base Require Import Plan.
 From Coercion.Limiter Require ContChan ContChanProofs.
 From Coercion.Limiter Require Mechanisms.
 From Coercion.Engine Require Import Shape Event ChecksRun Block PlanSM Auto Accept.
-From Coercion.C07 Require Import MonC07 Inv C07Proofs.
+From Coercion.C07 Require Import MonC07 Inv C07Proofs K2Witness.
 Import ListNotations.
 
 (* ---- the observable engine automaton (coq/engine) against the monitor ---- *)
@@ -50,6 +50,30 @@ Theorem c07_thread_alive_block : forall (sh : shape) (tr : list event) (s : st) 
   b_thr (s_b s) = TLive /\ (g_dead (t_cont (b_g (s_b s))) = false -> b_may_start (s_b s) GCont = true).
 Proof. exact c07_thread_alive_block_l. Qed.
 Print Assumptions c07_thread_alive_block.
+
+(* KNOWN FINDING K2 - the STRICT reading of "deferred checks run after everything else in that scope" is REFUTED at
+   block level.  mon_cont_deferred exempts the scope's own continuous group in its clause 5; mon_cont_deferred_strict
+   adds: no run of the scope's continuous group begins once its deferred (clause 20) or post (clause 21) run has
+   begun.  There is a well-formed shape and a trace that the automaton accepts from init (so: what the code does - it
+   is a real trace of the engine, K2Witness.v) and that satisfies mon_cont_deferred, on which the strict monitor is
+   false: the block's continuous thread is only stopped in BlockEnd, after BlockPostChecks and BlockDeferredChecks. *)
+Theorem c07_deferred_last_refuted_block :
+  exists (sh : shape) (tr : list event),
+    accepts sh tr = true /\ mon_cont_deferred (sh, tr) = true /\ mon_cont_deferred_strict (sh, tr) = false.
+Proof. exact c07_deferred_last_refuted_block_l. Qed.
+Print Assumptions c07_deferred_last_refuted_block.
+
+(* ... while at PLAN level the automaton (= PlanPostChecks / PlanDeferredChecks draining first) lets the post / deferred
+   group begin only when the plan's continuous thread is no longer live, lets a continuous re-run begin only while it is
+   live, and in PPost a live thread means the post group has not begun.  (State-level guards; the trace-level strict
+   clause at plan level is checked on every real trace by the driver - a failure is a VIOLATION - but not proved.) *)
+Theorem c07_plan_deferred_guard : forall (sh : shape) (tr : list event) (s : st),
+  run sh init tr = Some s ->
+  (p_may_start s GPost = true \/ p_may_start s GDeferred = true -> thr_live (s_thr s) = false)
+  /\ (p_may_start s GCont = true -> s_ph s = PPre \/ thr_live (s_thr s) = true)
+  /\ (s_ph s = PPost -> s_thr s = TLive -> t_post (s_g s) = g0).
+Proof. exact c07_plan_deferred_guard_l. Qed.
+Print Assumptions c07_plan_deferred_guard.
 
 (* ---- the mechanism: the result channel between runContChecks and the state machine (coq/limiter/ContChan.v:
    capacity 1, one send per run, close on exit, non-blocking polls, cancel-then-drain) ---- *)
